@@ -23,6 +23,8 @@ func init() {
 			"(\"the same settling period\"). A failed UpdateStatus after a release drops the computed ReprocessAll (fault sequence; noted in DESIGN.md O-1).",
 		Run: runC07,
 		Mutants: []Mutant{
+			{Name: "key-compared-after-the-no-change-exit", File: "controller/main.go",
+				Old: "\tnewAllocKey := c.ips.AllocationKey(name)\n\n\tif prevAllocKey != newAllocKey {\n\t\tlevel.Debug(l).Log(\"event\", \"allocation key changed\", \"msg\", \"allocation changed for shared service, reprocessing\")\n\t\tsyncStateRes = controllers.SyncStateReprocessAll\n\t}\n\n\tif reflect.DeepEqual(svcRo, svc) {\n\t\tlevel.Debug(l).Log(\"event\", \"noChange\", \"msg\", \"service converged, no change\")\n\t\treturn syncStateRes\n\t}\n", New: "\tif reflect.DeepEqual(svcRo, svc) {\n\t\tlevel.Debug(l).Log(\"event\", \"noChange\", \"msg\", \"service converged, no change\")\n\t\treturn syncStateRes\n\t}\n\n\tnewAllocKey := c.ips.AllocationKey(name)\n\n\tif prevAllocKey != newAllocKey {\n\t\tlevel.Debug(l).Log(\"event\", \"allocation key changed\", \"msg\", \"allocation changed for shared service, reprocessing\")\n\t\tsyncStateRes = controllers.SyncStateReprocessAll\n\t}\n", Expect: "key-compared-on-every-exit"},
 			{Name: "reload-request-dropped-when-busy", File: "internal/k8s/controllers/service_controller_reload.go",
 				Old: "\tr.Reload <- NewReloadEvent()\n", New: "\tselect {\n\tcase r.Reload <- NewReloadEvent():\n\tdefault:\n\t}\n", Expect: "FALLBACK-POOLS"},
 			{Name: "fallback-skips-pools-without-free-ipv4", File: "internal/allocator/allocator.go",
@@ -71,6 +73,9 @@ func init() {
 }
 
 func runC07(p *chk.Prog, r *chk.Report) {
+	// every namespace a pool's selectors match is pinned to it (ALLOCATE-TO, shared with C02): an unpinned namespace's
+	// Services stay pending next to a free pool
+	c02AllocateTo(p, r)
 	// the gate that lets single-Service events through is opened once and never closed again (GATE, shared with C06): a
 	// closed gate drops every event, and a pending Service is then never retried
 	c06Gate(p, r)
@@ -228,6 +233,13 @@ func c07Release(p *chk.Prog, r *chk.Report) {
 		} else {
 			nAfter++
 		}
+	}
+	// ... and it is asked on every way out behind the convergence: no return (the "nothing changed on the object" exit
+	// included - the key can change while address and annotations stay) comes before the second reading of the key
+	if len(conv) == 1 {
+		w := (&chk.Walk{G: g, From: conv[0], Stop: f.ContainsPat("RECV.ips.AllocationKey(N)", chk.H("N", name)),
+			Hit: func(n ast.Node) bool { _, isRet := n.(*ast.ReturnStmt); return isRet }}).Run()
+		x.Check("SetBalancer:key-compared-on-every-exit", posOf(w, f), !w.Found, "", "SetBalancer can return behind convergeBalancer without comparing the allocation key before and after: a holder that changes its sharing or backend key in place (same address, same annotations) leaves through that exit, no full re-sync is requested and the Services waiting to share the address stay pending")
 	}
 	x.Check("SetBalancer:key-change-requests-reprocess", f.Pos(), okKey && nBefore >= 1 && nAfter >= 1, "", "a Service whose allocation key changed while it kept its address (it started or stopped sharing) does not request a full re-sync under exactly that condition: Services waiting to share the address stay pending")
 	// ... and the key that is compared is the whole key: two Services share an address only with equal sharing AND
